@@ -21,6 +21,15 @@ case "${1:-}" in
   C[0-9][0-9])
     id="$1"; tier="${2:-${VERIF_TIER:-quick}}"
     shift; shift || true
+    if [ "$id" = "C16" ]; then
+      # part (a): the same generator against fastrace built WITHOUT the enable feature
+      if ! (cd /verif/dst-disabled && cargo build --release --offline >/verif/target-build-disabled.log 2>&1); then
+        cat /verif/target-build-disabled.log >&2; echo "HARNESS ERROR: build of the enable-less harness failed" >&2; exit 2
+      fi
+      n=4000; [ "$tier" = "thorough" ] && n=80000
+      rm -f /verif/target-disabled/c16-disabled.json
+      /verif/target-disabled/release/dst-disabled "$n" "$(( ${VERIF_SEED:-1} * 1000003 ))" /verif/target-disabled/c16-disabled.json >/dev/null
+    fi
     exec "$BIN" drive --prop "$id" --tier "$tier" "$@"
     ;;
   *)
